@@ -258,12 +258,16 @@ func runOne(sp spec) (res runRes) {
 		res.SetupErr = "no leader"
 		return
 	}
-	if r := cl.PostJSON(n, "/db/execute", []any{"CREATE TABLE t (id INTEGER PRIMARY KEY, tag TEXT UNIQUE, pad TEXT)"}); r.Err != nil || r.Status != 200 {
-		res.SetupErr = fmt.Sprintf("schema: %v %d", r.Err, r.Status)
-		return
-	}
-
 	lg := &evlog{}
+	// creating the table is the first change (write "schema")
+	lg.add(ev{Kind: "write-start", Tag: "schema", WK: "execute"})
+	r0 := cl.PostJSON(n, "/db/execute?raft_index", []any{"CREATE TABLE t (id INTEGER PRIMARY KEY, tag TEXT UNIQUE, pad TEXT)"})
+	if a, err := r0.Parse(); err != nil || r0.Status != 200 || a.RaftIndex == 0 || len(a.Results) != 1 || a.Results[0].Error != "" {
+		res.SetupErr = fmt.Sprintf("schema: %v %d %.200s", err, r0.Status, r0.Body)
+		return
+	} else {
+		lg.add(ev{Kind: "write-ack", Tag: "schema", WK: "execute", Idx: a.RaftIndex})
+	}
 	var inst atomic.Int64
 	st := &storage{log: lg, rng: rand.New(rand.NewPCG(uint64(sp.Seed), uint64(sp.Run)*7919+13)), pct: sp.FailPct, inst: &inst}
 	pv := &provider{inner: store.NewProvider(n.Store, sp.Vacuum, sp.Compress), log: lg, st: st, inst: &inst}
@@ -381,7 +385,7 @@ func runOne(sp spec) (res runRes) {
 	// examine every stored object
 	acked := map[string]uint64{}
 	for _, e := range lg.evs {
-		if e.Kind == "write-ack" {
+		if e.Kind == "write-ack" && e.Tag != "schema" {
 			acked[e.Tag] = e.Idx
 		}
 	}
